@@ -186,9 +186,11 @@ def compare(ctx, vec, obs, sites, found):
     if (vec["hasDef"] != obs["hasDef"] or (vec["hasDef"] and vec["def"] != obs["def"])) and "default" in sites:
         rep(dict(site="default", kind=kind, want="default" if vec["hasDef"] else "no-default"), "Default() of " + describe(ch),
             dict(want=dict(hasDef=vec["hasDef"], default=txt(vec["def"])), got=dict(hasDef=obs["hasDef"], default=txt(obs["def"]))))
-    if len(vec["probes"]) != len(obs["probes"]):
+    # every pass of the harness (kept errors inspected after the pass; forward through Type().Validate, reverse through
+    # ModelSet.Validate; repeated compilations) must show the same, prescribed outcome for every probe
+    if any(len(vec["probes"]) != len(pas) for pas in obs["passes"]) or not obs["passes"]:
         raise Infra("observation does not match its vector (probe count)")
-    for pi, (p, q) in enumerate(zip(vec["probes"], obs["probes"])):
+    for pi, (p, q) in enumerate(all_probes(vec, obs)):
         cur[0] = pi + 1
         if not p["j"]:
             continue
@@ -211,6 +213,11 @@ def compare(ctx, vec, obs, sites, found):
         if p["tj"] and q["tag"] not in p["tags"] and "app-tag" in sites:
             rep(dict(site="app-tag", kind=kind), "rejection of %r does not carry the custom error-app-tag; type %s" % (v, describe(ch)), dict(lexeme=v, want=p["tags"], got=q))
     return judged
+
+
+def all_probes(vec, obs):
+    """(expectation, observation) of every probe in every pass, in one fixed order"""
+    return [(p, q) for pas in obs["passes"] for p, q in zip(vec["probes"], pas)]
 
 
 def validate_trace(ctx, events, nproc, selftest):
@@ -349,7 +356,7 @@ def run(ctx):
             continue
         sampled.add(o["id"])
         events.append(dict(id=o["id"], chain=v["chain"], sibs=v["sibs"], mi=v["mi"], compiled=o["compiled"], hasDef=o["hasDef"], **{"def": o["def"]},
-                           probes=[dict(v=p["v"], ok=q["ok"], pc=q["pc"], msg=q["msg"], tag=q["tag"]) for p, q in zip(v["probes"], o["probes"])]))
+                           probes=[dict(v=p["v"], ok=q["ok"], pc=q["pc"], msg=q["msg"], tag=q["tag"]) for p, q in all_probes(v, o)]))
     # binding self-test: an observation with one flipped verdict must be rejected by the trace specification and
     # a vector with one flipped expectation must be reported by the comparison
     st = next(((v, o) for v, o in zip(vecs, obs) if o["compiled"] and v["gj"] and v["gok"] and v["cj"] and any(p["j"] for p in v["probes"])), None)
@@ -358,16 +365,16 @@ def run(ctx):
     sv, so = st
     k = next(i for i, p in enumerate(sv["probes"]) if p["j"])
     bad_obs = json.loads(json.dumps(so))
-    bad_obs["probes"][k]["ok"] = not sv["probes"][k]["acc"]
+    bad_obs["passes"][0][k]["ok"] = not sv["probes"][k]["acc"]
     bad_obs["id"] = 0
     bad_vec = json.loads(json.dumps(sv))
-    bad_vec["probes"][k]["acc"] = not so["probes"][k]["ok"]
+    bad_vec["probes"][k]["acc"] = not so["passes"][0][k]["ok"]
     probe_found = {}
     compare(ctx, bad_vec, so, sites, probe_found)
     if not any(key[1] == "accept" and key[2] == k + 1 for key in probe_found):
         raise Infra("binding self-test failed: a perturbed expectation was not reported by the replay comparison")
     selftest = dict(id=0, chain=sv["chain"], sibs=[], mi=1, compiled=True, hasDef=so["hasDef"], **{"def": so["def"]},
-                    probes=[dict(v=p["v"], ok=q["ok"], pc=q["pc"], msg=q["msg"], tag=q["tag"]) for p, q in zip(sv["probes"], bad_obs["probes"])])
+                    probes=[dict(v=p["v"], ok=q["ok"], pc=q["pc"], msg=q["msg"], tag=q["tag"]) for p, q in all_probes(sv, bad_obs)])
     fails = validate_trace(ctx, events, 4 if quick else 8, selftest)
     ctx.traces += len(events)
     tkeys = set((f["id"], f["site"], f["pi"]) for f in fails if f["site"] in sites)
